@@ -134,5 +134,11 @@ def r3_transport_body(chk: Check) -> None:
     chk.expect("method or operation.method.upper()" in unparse(mk.node, 100000), "C20.R3", mk, "GraphQL cases are POSTs to the endpoint", "shape not recognised", mk.loc())
 
 
+def rfwd_forwarding(chk: Check) -> None:
+    from . import shared
+
+    shared.forwarding_rule(chk, "C20.FWD", ('specs/graphql/',), "GraphQL case / strategy options", 2)
+
+
 def rules(tier: str) -> list:  # type: ignore[type-arg]
-    return [r1_factory_plumbing, r2_enumeration, r3_transport_body]
+    return [r1_factory_plumbing, r2_enumeration, r3_transport_body, rfwd_forwarding]
